@@ -5,8 +5,12 @@ from tools import vlib, shimcopy
 FILES = ["sdk/include/opentelemetry/sdk/trace/batch_span_processor.h", "sdk/src/trace/batch_span_processor.cc",
          "sdk/include/opentelemetry/sdk/logs/batch_log_record_processor.h", "sdk/src/logs/batch_log_record_processor.cc",
          "api/include/opentelemetry/common/spin_lock_mutex.h", "sdk/include/opentelemetry/sdk/trace/simple_processor.h",
-         "sdk/include/opentelemetry/sdk/logs/simple_log_record_processor.h", "sdk/src/logs/simple_log_record_processor.cc"]
+         "sdk/include/opentelemetry/sdk/logs/simple_log_record_processor.h", "sdk/src/logs/simple_log_record_processor.cc",
+         "sdk/include/opentelemetry/sdk/metrics/export/periodic_exporting_metric_reader.h",
+         "sdk/src/metrics/export/periodic_exporting_metric_reader.cc",
+         "sdk/include/opentelemetry/sdk/metrics/metric_reader.h", "sdk/src/metrics/metric_reader.cc"]
 EXCLUDE = ["/trace/batch_span_processor.cc", "/logs/batch_log_record_processor.cc", "/logs/simple_log_record_processor.cc",
+           "/metrics/export/periodic_exporting_metric_reader.cc", "/metrics/metric_reader.cc", "/metrics/export/periodic_exporting_metric_reader_factory.cc",
            "/trace/batch_span_processor_factory.cc", "/logs/batch_log_record_processor_factory.cc"]
 DRIVER = {"srcs": ["harness/batch_driver.cc", "harness/sched/sched.h", "harness/sched/bufproxy.h", "tools/shimcopy.py"], "sdk": True}
 TRACE_MODE = True
@@ -108,6 +112,38 @@ def gen_with(rng, tier, w_e, w_f, w_h):
     for i in range(n):
         cases.append(one_case(rng, w_e, w_f, w_h, big=(i % 10 == 9)))
     return cases
+
+
+def periodic_cases(rng, n):
+    out = []
+    for _ in range(n):
+        interval = rng.choice([1000, 1000, 50, 60000])
+        timeout = rng.choice([500, 10, 1, 30000])
+        if timeout >= interval:
+            timeout = interval // 2
+        clat = rng.choice([0, 0, 1, 3, 6])
+        elat = rng.choice([0, 1, 2])
+        mask = rng.choice([0, 0, 0, 1, 1 << 20, 1 << 21])
+        nt = rng.choice([1, 2, 2, 3])
+        secs = []
+        for _t in range(nt):
+            ops = []
+            for _o in range(1 + rng.below(5)):
+                r = rng.below(10)
+                ops.append("r" if r < 5 else ("f %d" % rng.choice([0, 0, 0, 1, 5000, 3000000]) if r < 9 else "h"))
+            secs.append("t " + " ".join(ops))
+        nthreads = nt + 2 + 6          # worker, apps, closer, some collect threads
+        k = rng.below(4)
+        if k == 0:
+            sched = ""
+        elif k == 1:
+            sched = rand_schedule(rng, nthreads, rng.choice([20, 60, 200]), p_timeout=5)
+        elif k == 2:    # starve the collect threads so that the export time-out fires
+            sched = " ".join("%d %d" % (rng.choice([0] + list(range(1, nt + 2))), 1 if rng.chance(1, 3) else 0) for _ in range(rng.choice([10, 30, 80])))
+        else:
+            sched = seg_schedule([(rng.below(nthreads), 1 + rng.below(15), 1 if rng.chance(1, 4) else 0) for _ in range(1 + rng.below(6))])
+        out.append("PERIODIC %d %d %d %d %d | %s | s %s" % (interval, timeout, clat, elat, mask, " | ".join(secs), sched))
+    return out
 
 
 def widen(rng, k):
